@@ -13,8 +13,56 @@ from .. import alphabet, common, qast, univ
 from .base import viol
 
 
+class _Broken:
+    """Stands for a query the real DSL refused to construct: evaluating it re-raises the constructor's error, so
+    that the failure is reported as a violation (``raises``) of the term it belongs to, not as a crash of the check."""
+
+    def __init__(self, exc):
+        self.exc = exc
+
+    def __call__(self, point):
+        raise self.exc
+
+    def __invert__(self):
+        return self
+
+    def __and__(self, other):
+        return self
+
+    __rand__ = __or__ = __ror__ = __and__
+
+
+def safe_build(ast):
+    try:
+        q = qast.build(ast)
+    except Exception as e:  # noqa
+        return _Broken(e)
+    if not callable(q):  # e.g. a comparison that fell through to object equality and answered with a plain bool
+        return _Broken(TypeError(f"the DSL built {q!r} instead of a query"))
+    return q
+
+
+def _and(a, b):
+    return b if isinstance(b, _Broken) else a & b
+
+
+def _or(a, b):
+    return b if isinstance(b, _Broken) else a | b
+
+
+def real_point(rp):
+    """A real Point for a universe entry; a time of None is a point that has never been given one (bare Point())."""
+    from tinyflux import Point
+
+    p = Point()
+    if rp[0] is not None:
+        p.time = rp[0]
+    p.measurement, p.tags, p.fields = rp[1], dict(rp[2]), dict(rp[3])
+    return p
+
+
 def point_universe(alpha):
-    """378 points: tag a x field v x measurement x time, each with a second tag/field."""
+    """381 points: 378 = tag a x field v x measurement x time, each with a second tag/field."""
     x = alpha.x
     t1 = alpha.t[1]
     us = dt.timedelta(microseconds=1)
@@ -35,6 +83,10 @@ def point_universe(alpha):
                     if v is not MISSING:
                         fields["v"] = v
                     U.append((t, m, tags, fields))
+    # points that have no time yet (every Point() before its insertion), and keys named like attributes of a query object
+    U.append((None, "m", {"a": x, "b": x}, {"v": 1, "w": 1}))
+    U.append((None, "", {"b": x}, {"w": 1}))
+    U.append((t1, "m", {"test": x, "map": x, "b": x}, {"exists": 1, "w": 1}))
     return U
 
 
@@ -52,6 +104,11 @@ def c09_atoms(alpha):
         extra.append(("cmp", "tags", ("a",), op, x))
         extra.append(("cmp", "measurement", (), op, "m"))
     extra += [
+        # keys named like attributes / methods of the query object itself (reachable through [] only)
+        ("cmp", "tags", ("test",), "==", x),
+        ("exists", "tags", ("map",)),
+        ("cmp", "fields", ("exists",), ">", 0),
+        ("cmp", "tags", ("_path",), "==", x),
         ("cmp", "time", (), "<", t1 - us),
         ("cmp", "time", (), "==", (t1 - us).astimezone(dt.timezone(dt.timedelta(hours=-8)))),
         ("cmp", "fields", ("v",), "<", math.inf),
@@ -200,8 +257,7 @@ class C09(univ.UnivCheck):
 
         self.points = []
         for t, m, tags, fields in self.U:
-            p = Point()
-            p.time, p.measurement, p.tags, p.fields = t, m, dict(tags), dict(fields)
+            p = real_point((t, m, tags, fields))
             self.points.append(p)
         self.mask = (1 << len(self.U)) - 1
         self._fam_cache = {}
@@ -209,7 +265,7 @@ class C09(univ.UnivCheck):
     def _family(self, fi):
         if fi not in self._fam_cache:
             f = self.families[fi]
-            real = [qast.build(a) for a in f["S"]]
+            real = [safe_build(a) for a in f["S"]]
             refv = []
             for a in f["S"]:
                 v = 0
@@ -249,9 +305,9 @@ class C09(univ.UnivCheck):
                 elif k == "not":
                     q, exp = ~real[i1], ~refv[i1] & self.mask
                 elif k == "and":
-                    q, exp = real[i1] & real[i2], refv[i1] & refv[i2]
+                    q, exp = _and(real[i1], real[i2]), refv[i1] & refv[i2]
                 else:
-                    q, exp = real[i1] | real[i2], refv[i1] | refv[i2]
+                    q, exp = _or(real[i1], real[i2]), refv[i1] | refv[i2]
                 c["evaluations"] += len(self.points)
                 c["terms"] += 1
                 if exp not in (0, self.mask):
@@ -290,7 +346,7 @@ class C09(univ.UnivCheck):
         out = []
         for order, seq in (("forward", atoms), ("backward", list(reversed(atoms)))):
             for a in seq:
-                q = qast.build(a)
+                q = safe_build(a)
                 for i, rp in enumerate(self.U):
                     exp = qast.ref_eval(a, rp)
                     try:
@@ -324,11 +380,11 @@ class C09(univ.UnivCheck):
                 if m1 is m2:
                     continue
                 for name, filler, fold_real, fold_ref in (
-                    ("or", never, lambda a, b: a | b, lambda a, b: a or b),
-                    ("and", always, lambda a, b: a & b, lambda a, b: a and b),
+                    ("or", never, _or, lambda a, b: a or b),
+                    ("and", always, _and, lambda a, b: a and b),
                 ):
                     sub = [m1] + [filler] * 248 + [m2]
-                    q = functools.reduce(fold_real, [qast.build(a) for a in sub])
+                    q = functools.reduce(fold_real, [safe_build(a) for a in sub])
                     for i, rp in enumerate(self.U):
                         exp = fold_ref(qast.ref_eval(m1, rp), qast.ref_eval(m2, rp))
                         try:
@@ -379,8 +435,7 @@ class C09(univ.UnivCheck):
     def _single(self, ast, rp, sig):
         from tinyflux import Point
 
-        p = Point()
-        p.time, p.measurement, p.tags, p.fields = rp[0], rp[1], dict(rp[2]), dict(rp[3])
+        p = real_point(rp)
         exp = qast.ref_eval(ast, rp)
         try:
             r = qast.build(ast)(p)
@@ -394,8 +449,7 @@ class C09(univ.UnivCheck):
         if "depends-on-evaluation-history" in rec["signature"]:
             return [v for v in self.history_pass() if v["signature"] == rec["signature"]][:1]
         ast, rp = rec["input"]
-        p = Point()
-        p.time, p.measurement, p.tags, p.fields = rp[0], rp[1], dict(rp[2]), dict(rp[3])
+        p = real_point(rp)
         exp = qast.ref_eval(ast, rp)
         try:
             r = qast.build(ast)(p)
